@@ -135,6 +135,8 @@ def easy_expected(model_line, nv, nc):
     x = y = nsuf = nbs = 0
     sr = -2
     msg = '-'
+    alt = None
+    registered = set()
     for e in (evs.split(' ; ') if evs else []):
         p = e.split(' ')
         if p[0] == 'msg':
@@ -153,8 +155,14 @@ def easy_expected(model_line, nv, nc):
                 code = 'BadSuffix'          # the handler calls SetError(Bad_Suffix, "bad suffix element index") and the reader stops
                 break
             if p[5] == 'OK':
-                nsuf += 1
-    return 'easy ok=%d x=%d y=%d sr=%d nbs=%d nsuf=%d m=%s' % (1 if code == 'OK' else 0, x, y, sr, nbs, nsuf, msg), code
+                registered.add((p[2], kind & 3))      # NLSuffixSet is keyed by (name, kind & 3): a repeated suffix is not added again
+                nsuf = len(registered)
+            elif p[5] in ('BadLine', 'EarlyEOF'):
+                # SOLHandler_Easy tests the index of the pair returned by the FAILED ReadNext too (the index may already have been parsed when the
+                # value was not): if that index is out of range it overrides the read error with Bad_Suffix.  The model does not expose the
+                # partially read pair, so both codes are accepted for this case.
+                alt = 'BadSuffix'
+    return 'easy ok=%d x=%d y=%d sr=%d nbs=%d nsuf=%d m=%s' % (1 if code == 'OK' else 0, x, y, sr, nbs, nsuf, msg), (code, alt)
 
 
 def canon_impl(line):
@@ -176,6 +184,8 @@ def gen_cases(rng, n_cases):
                 meta = {'expect_sig': c.get('sig')}
                 if 'namelen' in c:
                     meta['namelen'] = c['namelen']
+                if c.get('easy'):
+                    meta['easy'] = True
                 add('corpus:' + fn[:-5], bytes.fromhex(c['hex']), c['nv'], c['nc'], tuple(c.get('pol', (0, 'all', 'all', 'all'))), **meta)
     for famname, b, nv, nc in solgen.fixed_stream():
         add(famname, b, nv, nc, (0, 'while', 'while', 'while'))
@@ -479,12 +489,25 @@ def cov_extra_sources():
     return [os.path.join(REPO, x) for x in Check.LIBNLW2_SRC if not x.endswith('nl-utils.cc')]
 
 
+def regen_guards(ck):
+    """regenerate lean/MpVerif/Gen/SolGuards.lean from the tree under test (translator tie, ROUND 4); returns error text or None"""
+    rc, out, err = sh([sys.executable, os.path.join(VERIF, 'translators', 'gen_solguards.py'), REPO,
+                       os.path.join(LEAN, 'MpVerif', 'Gen', 'SolGuards.lean'), os.path.join(BUILD, 'tr')], timeout=600)
+    ck.log((out.strip() or err.strip())[-300:])
+    ck.cov['translator'] = 'translators/gen_solguards.py: 10 integer decisions of sol-reader2.hpp / sol.h + the writer format list, regenerated from the tree under test'
+    return None if rc == 0 else (out + err).strip()[-500:]
+
+
 def run(ck):
     if os.environ.get('VERIF_COVERAGE'):
         return coverage_run(ck)
     ck.level = 'proof'
+    tr_err = regen_guards(ck)
+    if tr_err:
+        ck.add_violation('translator:sol-guards', 'the integer decisions of the SOL reader/writer could not be re-translated from the source (the code around them changed): %s' % tr_err,
+                         {'translator': 'translators/gen_solguards.py', 'output': tr_err}, found_input=False)
     proof_ok, failing = ck.proof_stage('MpVerif.C14.Props', 'MpVerif/C14/Props.lean', 'C14_',
-                                        ['MpVerif/C14/*.lean'], expect_min=21)
+                                        ['MpVerif/C14/*.lean', 'MpVerif/Gen/SolGuards.lean'], expect_min=32)
     ck.log('proof stage: ok=%s failing=%s' % (proof_ok, failing[:12]))
     if ck.tier == 'thorough' and proof_ok:
         bad = ck.leanchecker(['MpVerif.C14.Props'])
@@ -537,7 +560,7 @@ def run(ck):
                 continue
             if tag is not None:
                 continue
-            want, want_code = easy_expected(expn.partition(' ')[2], c['nv'], c['nc'])
+            want, (want_code, alt_code) = easy_expected(expn.partition(' ')[2], c['nv'], c['nc'])
             head, _, body = il.partition(' | ')
             rc = head.split(' ')[1].split('=')[1]
             m = re.match(r'easy ok=(\d) x=(\d+) y=(\d+) ', body)
@@ -549,7 +572,7 @@ def run(ck):
             if rc == 'NotSet':
                 ck.add_violation('nlsolver:sol-read-result-code-never-set', 'NLSolver::GetSolReadResultCode() returns Result_Not_Set after ReadSolution() (expected %s): sol_result_ is never assigned'
                                  % want_code, {'case': case_line(c), 'impl': il, 'how': 'harness/h_solread.cc easy mode: NLSolver::LoadModel + ReadSolution()'})
-            elif rc != want_code:
+            elif rc != want_code and rc != alt_code:
                 corr_bad.append((c, il, ml, 'NLSolver::GetSolReadResultCode() = %s, model expects %s' % (rc, want_code)))
             codes['easy:' + want_code] = codes.get('easy:' + want_code, 0) + 1
             continue
